@@ -74,17 +74,68 @@ theorem C19_fmtDiffs_wellformed (lines : List (List Nat)) (frags : List Edit)
     ∃ es, fmtDiffs lines frags = .ok es ∧ EditsWF lines.length 0 es :=
   fmtDiffs_spec lines frags h
 
+/-! ## Applying the edits equals the formatter -/
+
+/-- The property as stated: applying the edits to the document produces the formatter's output up to
+trailing blank lines (`EqT`: equal line lists after dropping trailing empty / whitespace-only lines and
+a final newline). `applyEdits` is the LSP application (every edit replaces the byte range between the
+starts of its lines; all edits refer to the original document). -/
+def C19_apply_eq_fmt_full : Prop :=
+  ∀ (cls : Cls) (bytes out : List Nat), fmtSrc cls bytes = .ok out →
+    ∃ es, fmtDiffsSrc cls bytes = .ok es ∧
+      EqT (blankLine cls) (applyEdits (splitLines bytes) es) out
+
+/-- Proved for every source whose lines after the last fragment are blank (`TrailingBlank`, a
+decidable predicate of the source). What is missing for `C19_apply_eq_fmt_full`: deriving
+`TrailingBlank` from the lexer (everything the lexer skips outside tokens is white space, and the
+tokens left after the last fragment are EOLs) — a content invariant the present lexer lemmas, which
+track positions only, do not give. No input violating `TrailingBlank` is known or expected. -/
+theorem C19_apply_eq_fmt_partial (cls : Cls) (bytes : List Nat) (ht : TrailingBlank cls bytes)
+    (out : List Nat) (hfmt : fmtSrc cls bytes = .ok out) :
+    ∃ es, fmtDiffsSrc cls bytes = .ok es ∧
+      EqT (blankLine cls) (applyEdits (splitLines bytes) es) out :=
+  fmtDiffs_apply_eq_fmt cls bytes ht out hfmt
+
+/-- The same for `fmtDiffs` over **arbitrary** lines and fragments: well-formed ranges, fragment texts
+ending in a newline, blank lines after the last fragment. Covers the merge pass (several statements on
+one line), multi-line fragments, leading / trailing blank lines, single and multiple gap lines. -/
+theorem C19_fmtDiffs_apply (blank : List Nat → Bool) (hb : blank [] = true) (L : List (List Nat))
+    (hL : L ≠ []) (hnl : ∀ l ∈ L, cNL ∉ l) (all : List Edit) (h : RawWF L.length 0 all)
+    (hends : ∀ d ∈ all, ∃ x, d.newText = x ++ [cNL])
+    (htrail : ∀ l ∈ L.drop (lastTo all 0), blank l = true) :
+    ∃ es, fmtDiffs L all = .ok es ∧ EqT blank (applyEdits L es) (joinFrags all none) :=
+  apply_eqT blank hb L hL hnl all h hends htrail
+
+/-- the document `applyEdits` works on is the source itself -/
+theorem C19_apply_document (bytes : List Nat) : joinWith [cNL] (splitLines bytes) = bytes :=
+  joinWith_splitLines bytes
+
 /-! ## Non-vacuity: a realistic source (leading blank lines, double gap, block, trailing comment,
-header with trailing comment below line 1, two statements on one line) is accepted by the formatter
-and produces edits -/
+header with trailing comment below line 1, whitespace-only gap line, two statements on one line,
+trailing blank lines) is accepted by the formatter, satisfies `TrailingBlank` and produces edits -/
 
 def sample : List Nat :=
-  ofAscii "\n\na  =  1\n\n\n  b {\nc = \"x\" // k\nd e // t\n \nf = 2\n} g = 2\n"
+  ofAscii "\n\na  =  1\n\n\n  b {\nc = \"x\" // k\nd e // t\n \nf = 2\n} g = 2\n  \n\n"
 
 example : (match fmtSrc asciiCls sample with | .ok _ => true | _ => false) = true := by
   decide +kernel
 example : (match fmtDiffsSrc asciiCls sample with | .ok es => decide (es.length ≥ 4) | _ => false)
     = true := by decide +kernel
+
+/-- Boolean form of `TrailingBlank` for evaluation -/
+def trailingBlankB (cls : Cls) (bytes : List Nat) : Bool :=
+  match collectFragments cls (decodeRunes bytes) with
+  | .ok frags => ((splitLines bytes).drop (lastTo (fragEdits cls frags) 0)).all (blankLine cls)
+  | _ => true
+
+theorem trailingBlankB_sound (cls : Cls) (bytes : List Nat) (h : trailingBlankB cls bytes = true) :
+    TrailingBlank cls bytes := by
+  intro frags hc l hl
+  unfold trailingBlankB at h
+  rw [hc] at h
+  exact List.all_eq_true.mp h l hl
+
+example : TrailingBlank asciiCls sample := trailingBlankB_sound _ _ (by decide +kernel)
 
 end J5V.Props.C19
 
